@@ -2,6 +2,7 @@ from miasm.core.utils import decode_hex, encode_hex
 import miasm.expression.expression as m2_expr
 from miasm.ir.symbexec import SymbolicExecutionEngine
 from miasm.arch.x86.arch import is_op_segm
+from miasm.jitter.csts import EXCEPT_ACCESS_VIOL, PAGE_READ, PAGE_WRITE
 
 
 class EmulatedSymbExec(SymbolicExecutionEngine):
@@ -67,6 +68,19 @@ class EmulatedSymbExec(SymbolicExecutionEngine):
             self.symbols.symbols_id[reg] = m2_expr.ExprInt(0, size=reg.size)
 
     # Memory management
+    def _access_fault(self, addr, size, access):
+        """Report an access violation, like the emulated accesses of the C
+        backends, if one of the @size bytes at @addr is not mapped or lacks
+        the @access right. Return True if the access faults."""
+        for cur in range(addr, addr + size):
+            if (not self.vm.is_mapped(cur, 1) or
+                not self.vm.get_mem_access(cur) & access):
+                self.vm.set_exception(
+                    self.vm.get_exception() | EXCEPT_ACCESS_VIOL
+                )
+                return True
+        return False
+
     def mem_read(self, expr_mem):
         """Memory read wrapper for symbolic execution
         @expr_mem: ExprMem"""
@@ -76,6 +90,9 @@ class EmulatedSymbExec(SymbolicExecutionEngine):
             return super(EmulatedSymbExec, self).mem_read(expr_mem)
         addr = int(addr)
         size = expr_mem.size // 8
+        if self._access_fault(addr, size, PAGE_READ):
+            # Faulting read: the exception is pending, the value is unused
+            return m2_expr.ExprInt(0, expr_mem.size)
         value = self.vm.get_mem(addr, size)
         if self.vm.is_little_endian():
             value = value[::-1]
@@ -100,6 +117,10 @@ class EmulatedSymbExec(SymbolicExecutionEngine):
         # Format information
         addr = int(dest.ptr)
         size = data.size // 8
+        if (self.vm.get_exception() & EXCEPT_ACCESS_VIOL == EXCEPT_ACCESS_VIOL or
+            self._access_fault(addr, size, PAGE_WRITE)):
+            # The instruction faults: it must not have any memory effect
+            return
         content = hex(to_write).replace("0x", "").replace("L", "")
         content = "0" * (size * 2 - len(content)) + content
         content = decode_hex(content)
